@@ -138,6 +138,11 @@ class MPSBackendImpl:
             if self.config.optimize_qubit_ordering
             else optimat.eye_permutation(self.qubit_count)
         )
+        # MPS site k holds register atom qubit_permutation[k]: the per-qubit
+        # drives must follow the same order as the interaction matrix.
+        self.omega = self.omega[:, self.qubit_permutation]
+        self.delta = self.delta[:, self.qubit_permutation]
+        self.phi = self.phi[:, self.qubit_permutation]
 
         self.hamiltonian_type = pulser_data.hamiltonian_type
         self.time = time.time()
